@@ -17,6 +17,7 @@ Reading notes
 -/
 import OsloModel.Scalars
 import OsloProofs.Lemmas.C14
+import OsloProofs.Lemmas.C14Literal
 namespace Oslo.Scalars
 
 /-! ### vocabulary of the statements -/
@@ -236,14 +237,49 @@ example : isIntLike (.str ['-', '4', '2']) = true ∧ isIntLike (.str ['+', '4',
 
 /-! ### validate_integer -/
 
+/-- A base-10 integer literal as `int()` reads a str, and its value: after the ASCII transform
+    (Unicode whitespace -> space, Unicode decimal digits -> `0`-`9`), the text is
+    whitespace, an optional sign, groups of decimal digits joined by single underscores, whitespace —
+    with at most `Gen.maxStrDigits` digits (CPython's conversion limit). -/
+def IntLiteral (s : List Char) (n : Int) : Prop :=
+  ∃ pre sign body post,
+    s.map intAscii = pre ++ sign ++ body ++ post ∧
+    (∀ c ∈ pre, isIntSpace c = true) ∧ (∀ c ∈ post, isIntSpace c = true) ∧
+    (sign = [] ∨ sign = ['+'] ∨ sign = ['-']) ∧ DigitGroups body ∧
+    overLimit (digitCount body) = false ∧
+    n = if sign = ['-'] then -(decValue body : Int) else (decValue body : Int)
+
+/-- the parser of the model accepts exactly the integer literals, with their value -/
+theorem int_literal_iff (s : List Char) (n : Int) : pyIntParse 10 s = some n ↔ IntLiteral s n := by
+  unfold pyIntParse IntLiteral
+  constructor
+  · intro h
+    obtain ⟨pre, sign, body, post, e, hpre, hpost, hsign, hb, hok, hlim, hn⟩ :=
+      lemma_literal_of_parse _ n h
+    have hg := (lemma_groups_iff body).mp ⟨hb, hok⟩
+    refine ⟨pre, sign, body, post, e, hpre, hpost, hsign, hg, hlim, ?_⟩
+    rw [hn, lemma_value_dec body hg.2.1]
+    rfl
+  · rintro ⟨pre, sign, body, post, e, hpre, hpost, hsign, hg, hlim, hn⟩
+    obtain ⟨hb, hok⟩ := (lemma_groups_iff body).mpr hg
+    rw [e, lemma_parse_literal pre sign body post hpre hpost hsign hb hok, if_neg (by simp [hlim]),
+      hn, lemma_value_dec body hg.2.1]
+    rfl
+
+example : IntLiteral [' ', '+', '1', '_', '0', '\n'] 10 :=
+  (int_literal_iff _ _).mp (by decide)
+example : ¬ IntLiteral ['1', '_', '_', '0'] 10 := fun h => by
+  have := (int_literal_iff _ _).mpr h
+  revert this; decide
+
 /-- `int(str(value))` as the model reads it -/
 def intOfStrOf (v : PyVal) : Option Int :=
   match pyStr v with
   | .ok t => pyIntParse 10 t
   | .error _ => none
 
-/-- returns `n` exactly when `str(value)` is an integer literal of value `n` and `n` is within the
-    bounds that are set -/
+/-- returns `n` exactly when `str(value)` is read by `int()` as `n` (see `validate_integer_str_iff`
+    for what that means for a str) and `n` is within the bounds that are set -/
 theorem validate_integer_iff (v : PyVal) (lo hi : Option Int) (n : Int) :
     validateInteger v lo hi = .ok n ↔
       intOfStrOf v = some n ∧ (∀ l, lo = some l → l ≤ n) ∧ (∀ u, hi = some u → n ≤ u) := by
@@ -265,6 +301,13 @@ theorem validate_integer_iff (v : PyVal) (lo hi : Option Int) (n : Int) :
         cases hi with
         | none => by_cases h1 : m < l <;> simp [h1] <;> omega
         | some u => by_cases h1 : m < l <;> by_cases h2 : m > u <;> simp [h1, h2] <;> omega
+
+/-- for a str: returns `n` exactly when the text is an integer literal of value `n` within the bounds -/
+theorem validate_integer_str_iff (s : List Char) (lo hi : Option Int) (n : Int) :
+    validateInteger (.str s) lo hi = .ok n ↔
+      IntLiteral s n ∧ (∀ l, lo = some l → l ≤ n) ∧ (∀ u, hi = some u → n ≤ u) := by
+  rw [validate_integer_iff, ← int_literal_iff]
+  simp [intOfStrOf, pyStr]
 
 /-- and in every other case it raises ValueError (never another exception) -/
 theorem validate_integer_else (v : PyVal) (lo hi : Option Int) :
